@@ -205,6 +205,24 @@ let matfn name args =
   | "bradford_inverse" -> mat_s bradford_inverse
   | _ -> "BAD-REQUEST"
 
+(* ---------- Lab (math.Pow as an oracle) ---------- *)
+let pow_table : (string, string) Hashtbl.t = Hashtbl.create 16
+let powf x y =
+  let k = h64 x ^ "," ^ h64 y in
+  match Hashtbl.find_opt pow_table k with
+  | Some r -> f64h r
+  | None -> raise (Need ("pow " ^ k))
+let load_pow_table (s : string) =
+  Hashtbl.reset pow_table;
+  if s <> "-" then List.iter (fun e -> match String.split_on_char ':' e with [k; v] -> Hashtbl.replace pow_table k v | _ -> ()) (String.split_on_char ';' s)
+let lab name args tbl =
+  load_pow_table tbl;
+  match List.map f32h args with
+  | [a; b; c; wx; wy; wz] ->
+    let r = if name = "to" then to_lab powf a b c wx wy wz else from_lab powf a b c wx wy wz in
+    String.concat " " (List.map h32 r)
+  | _ -> "BAD-REQUEST"
+
 (* ---------- dispatch ---------- *)
 let handle (line : string) : string =
   match String.split_on_char ' ' line with
@@ -213,6 +231,7 @@ let handle (line : string) : string =
   | ["icc_tags"; d] -> icc_tags (bytes_of_hex d)
   | ["icc_desc"; d] -> icc_desc (bytes_of_hex d)
   | "mat" :: name :: args -> matfn name args
+  | ["lab"; name; a; b; c; wx; wy; wz; tbl] -> lab name [a; b; c; wx; wy; wz] tbl
   | ["quant"; w; bits] -> quant w (int_of_string bits)
   | ["ycc"; y; cb; cr] ->
     let ((r, g), b) = ycbcr_to_rgb8 (zi y) (zi cb) (zi cr) in
